@@ -5,18 +5,24 @@ import (
 	"fmt"
 	"io"
 	"os/exec"
+	"runtime"
 	"strings"
+	"sync"
 )
 
-// Driver is the Lean model behind a line protocol
+// Driver is the Lean model behind a line protocol; a pool of identical processes answers batches in parallel
 type Driver struct {
+	procs []*proc
+	n     int
+}
+
+type proc struct {
 	cmd *exec.Cmd
 	in  io.WriteCloser
 	out *bufio.Reader
-	n   int
 }
 
-func startDriver(path string) (*Driver, error) {
+func startProc(path string) (*proc, error) {
 	cmd := exec.Command(path)
 	in, err := cmd.StdinPipe()
 	if err != nil {
@@ -29,32 +35,33 @@ func startDriver(path string) (*Driver, error) {
 	if err := cmd.Start(); err != nil {
 		return nil, err
 	}
-	return &Driver{cmd: cmd, in: in, out: bufio.NewReaderSize(outp, 1<<20)}, nil
+	return &proc{cmd: cmd, in: in, out: bufio.NewReaderSize(outp, 1<<20)}, nil
 }
 
-// Ask sends one operation line and returns the model's answer
-func (d *Driver) Ask(op string) string {
-	if strings.ContainsAny(op, "\n\r") {
-		panic("op contains newline")
+func startDriver(path string) (*Driver, error) {
+	n := runtime.NumCPU() - 2
+	if n < 1 {
+		n = 1
 	}
-	if _, err := io.WriteString(d.in, op+"\n"); err != nil {
-		return "driver-error " + err.Error()
+	if n > 12 {
+		n = 12
 	}
-	d.n++
-	line, err := d.out.ReadString('\n')
-	if err != nil {
-		return "driver-error " + err.Error()
+	d := &Driver{}
+	for i := 0; i < n; i++ {
+		p, err := startProc(path)
+		if err != nil {
+			return nil, err
+		}
+		d.procs = append(d.procs, p)
 	}
-	return strings.TrimRight(line, "\n")
+	return d, nil
 }
 
-// AskAll pipelines many operations (the driver answers in order)
-func (d *Driver) AskAll(ops []string) []string {
-	res := make([]string, len(ops))
+func (p *proc) askAll(ops []string, res []string) {
 	done := make(chan struct{})
 	go func() {
 		for i := range ops {
-			line, err := d.out.ReadString('\n')
+			line, err := p.out.ReadString('\n')
 			if err != nil {
 				res[i] = "driver-error " + err.Error()
 				continue
@@ -63,17 +70,66 @@ func (d *Driver) AskAll(ops []string) []string {
 		}
 		close(done)
 	}()
-	w := bufio.NewWriterSize(d.in, 1<<20)
+	w := bufio.NewWriterSize(p.in, 1<<20)
 	for _, op := range ops {
+		if strings.ContainsAny(op, "\n\r") {
+			op = "bad-op"
+		}
 		fmt.Fprintln(w, op)
 	}
 	w.Flush()
 	<-done
+}
+
+// Ask sends one operation line and returns the model's answer
+func (d *Driver) Ask(op string) string {
+	res := make([]string, 1)
+	d.procs[0].askAll([]string{op}, res)
+	d.n++
+	return res[0]
+}
+
+// AskAll answers many operations, in order, spreading contiguous blocks over the pool
+func (d *Driver) AskAll(ops []string) []string {
+	res := make([]string, len(ops))
+	if len(ops) == 0 {
+		return res
+	}
+	k := len(d.procs)
+	if len(ops) < 4*k {
+		k = 1
+	}
+	// interleave small blocks so that expensive neighbours are spread
+	const blk = 8
+	idx := make([][]int, k)
+	for i := range ops {
+		w := (i / blk) % k
+		idx[w] = append(idx[w], i)
+	}
+	var wg sync.WaitGroup
+	for w := 0; w < k; w++ {
+		wg.Add(1)
+		go func(w int) {
+			defer wg.Done()
+			sub := make([]string, len(idx[w]))
+			for j, i := range idx[w] {
+				sub[j] = ops[i]
+			}
+			out := make([]string, len(sub))
+			d.procs[w].askAll(sub, out)
+			for j, i := range idx[w] {
+				res[i] = out[j]
+			}
+		}(w)
+	}
+	wg.Wait()
 	d.n += len(ops)
 	return res
 }
 
 func (d *Driver) Close() {
-	d.in.Close()
-	_ = d.cmd.Wait()
+	for _, p := range d.procs {
+		p.in.Close()
+		_ = p.cmd.Wait()
+	}
 }
